@@ -195,6 +195,9 @@ def b_cases(b, rig, r, n):
             # aim at the 512-byte boundary with multi-byte text
             ch = r.choice(['é', '中', '😀', 'a', '€'])
             args[-1] = r.choice(['', 'x', 'xy', 'xyz']) + ch * r.randint(480 // len(ch.encode()) - 3, 530 // len(ch.encode()) + 3)
+        if r.random() < 0.08 and args:
+            # lone surrogates (no UTF-8 encoding): what the driver writes for them must fit the size _truncateMsg computed
+            args[-1] = r.choice(['x', 'é', '']) * r.randint(380, 470) + r.choice(['\ud800', '\udfff ', ' \udc00']) * r.randint(5, 40) + r.choice(['', ' tail'])
         tags = {}
         for _ in range(r.choice([0, 0, 0, 1, 2])):
             tags[r.choice(['a', '+b', 'msgid', 'k y', 'k\n', 'label'])] = r.choice([None, '', 'v', 'a b;c\\', 'x\r\ny', '\0', 'é'])
@@ -223,9 +226,12 @@ def b_cases(b, rig, r, n):
         if caps: t.append('caps-' + '+'.join(caps))
         if len(data) >= 500: t.append('near-limit')
         if any(ord(c) > 127 for a in args for c in a): t.append('multibyte')
-        cases.append(Case({'B': True, 'prefix': pfx, 'command': cmd, 'args': args, 'tags': tags, 'caps': list(caps), 'label': label}, impl=out,
+        transportable = all(encodable(x) for x in [pfx, cmd] + args)
+        if not transportable: t.append('lone-surrogate')
+        cases.append(Case({'B': True, 'prefix': pfx, 'command': cmd, 'args': [a.encode('utf-8', 'backslashreplace').decode() for a in args] if not transportable else args,
+                           'tags': tags, 'caps': list(caps), 'label': label}, impl=out if transportable else None,
                           oracle_ok=ok, oracle_msg=msg, kind='B-ctor', tags=tuple(t)))
-        lines.append('\t'.join(['ctor', wire.enc(pfx), wire.enc(cmd), wire.enc_list(args), enc_tags(tags), wire.enc_opt(label)]))
+        lines.append('\t'.join(['ctor', wire.enc(pfx), wire.enc(cmd), wire.enc_list(args), enc_tags(tags), wire.enc_opt(label)]) if transportable else 'cut\t0\t')
         if i % 6 == 0:
             # the msg= branch: no assertion
             base = im.IrcMsg(prefix='', command='PRIVMSG', args=('#c', 'ok'))
@@ -264,7 +270,7 @@ def d_cases(r, n):
 SKIP_PLUGINS = {'Web', 'Internet', 'RSS', 'Google', 'ShrinkUrl', 'Unix', 'Fediverse', 'GPG', 'Geography', 'DDG', 'Dict', 'Debug', 'NickAuth',
                 'Aka', 'MessageParser', 'PluginDownloader', 'Poll', 'SedRegex', 'LogToIrc', 'Scheduler', 'Network', 'Protector', 'AutoMode',
                 'ChannelLogger', 'Relay', 'Services', 'Nickometer', 'Status', 'Time', 'Limiter', 'Autocomplete', 'Owner'}
-ARG_PATTERNS = ['"' + '\\ud800' * 120 + '"', '"' + 'a' * 470 + '"', 'é' * 250, '"a\\r\\nQUIT :x"', '"\\n"', '"\\x00"', '"\\x01ACTION x\\x01"', '\x0304red\x03 \x02b\x02', 'é' * 300, '😀' * 140 + ' tail',
+ARG_PATTERNS = ['x' * 430 + ' [chr 55296]' * 22, '[chr 56320] ' * 18 + 'y' * 440 + ' tail', 'é' * 180 + ' [chr 55296]' * 30, '"' + '\\ud800' * 120 + '"', '"' + 'a' * 470 + '"', 'é' * 250, '"a\\r\\nQUIT :x"', '"\\n"', '"\\x00"', '"\\x01ACTION x\\x01"', '\x0304red\x03 \x02b\x02', 'é' * 300, '😀' * 140 + ' tail',
                 '#c "x\\ny"', 'foo "\\r"', '"\\ud800"', 'a ' * 120, '"\\x0d\\x0a" b', '']
 CONFIGS = [{}, {'withNotice': True}, {'inPrivate': True}, {'withNickPrefix': False}, {'error.withNotice': True, 'error.inPrivate': True},
            {'withNoticeWhenPrivate': False}]
